@@ -210,4 +210,24 @@ CHECKS = {
         "distinct_measure": "FNV-64 of (drawn configuration, final tips / BFT heights / finalized heights of all nodes)",
         "assumptions": ["BLS signing/aggregation primitives (blst through pkg/crypto) are trusted; the oracle never verifies a signature itself, it knows what it signed", "heights, thresholds and parameter sets the oracle uses come from the reference BFT model of the node's tip (DESIGN A.1), not from the node", "genesis height is 0 (a non-zero genesis height does not start, see DESIGN observations)"],
     },
+    "C07": {
+        "profile": "chainsim", "pkg": "chain", "test": "TestC07", "level": "exploration", "env": {"VERIF_PROP": "C07"},
+        "quick": {"workers": 8, "checks": 120}, "thorough": {"workers": 14, "checks": 6000},
+        "timeout": {"quick": "25m", "thorough": "6h"}, "shrinktime": "90s",
+        "rule": "chainsim: per run 2-5 whole nodes, 4-9 validators of which some (< 1/3 of the weight) belong to a two-headed Byzantine adversary (double forging, false maxHeightGenerated, withheld, partial and late blocks), validator changes, gossip latency up to several slots, loss, duplication, partitions, crash+restart, clock skew up to 1.5 s, sync RPC faults; 15-100 blocks. Oracles: (1) every block a node's consensus loop takes from its queue is classified by the reference fork choice (LIP-0014 case order: identical, extends tip, double forging, tie break, better chain by (maxHeightPrevoted, height), discard) from the tip, the incoming header, the slot in which that tip came in over the network (none for synced blocks) and the receiving slot on the node's own clock; the node's reaction must fit: nothing for identical/double forging/discard; exactly one append and no removal or sync request for a successor; remove-tip + append (or re-append) for a tie break; the sync branch for a better chain; (2) the node's contradiction predicate in both argument orders against the reference predicate on every pair (new header, up to 40 earlier headers of the same generator seen in the run, honest or Byzantine, applied or only signed), and on pairs of different generators; (3) an applied block never contradicts its generator's most recent header in the window of the chain it extends (reference state of the parent)",
+        "real": ["pkg/consensus (executer process(): fork choice evaluation order, tie break, sync trigger; verifyBlock)", "pkg/consensus/forkchoice", "pkg/consensus/contradiction", "pkg/consensus/liskbft (IsHeaderContradictingChain, votes window)", "pkg/consensus/sync", "pkg/generator, pkg/blockchain, pkg/txpool, framework ABI handler + statemachine, pkg/db ...", "pebble on the simulated disk"],
+        "stub": ["pkg/p2p (stub)", "pkg/engine wiring", "application module: simmod", "ABI loopback", "clock (per-node skew), randomness"],
+        "distinct_measure": "FNV-64 of (drawn configuration, final tips / BFT heights / finalized heights of all nodes)",
+        "assumptions": ["the exhaustive enumeration of header pairs over small field ranges asked for by the property's quantifier is a pure-function check outside this technique: pairs come from simulated histories only (DESIGN 5)", "the sync branch is observed through the node's own log line, every other reaction through events and requests"],
+    },
+    "C09": {
+        "profile": "chainsim", "pkg": "chain", "test": "TestC09", "level": "exploration", "env": {"VERIF_PROP": "C09"},
+        "quick": {"workers": 8, "checks": 100}, "thorough": {"workers": 14, "checks": 5000},
+        "timeout": {"quick": "25m", "thorough": "6h"}, "shrinktime": "90s",
+        "rule": "chainsim: per run 2-4 whole nodes and 4-10 validators exchanging real blocks, single commits and sync RPCs for 15-80 blocks under gossip faults, partitions, crash+restart. Untrusted input from three fault sources: (1) a hostile peer every 0.7 s of simulated time: a corrupted copy of a payload the honest nodes exchanged (or a synthetic transaction) - truncated at a drawn offset, a flipped bit, a byte set to 00/7f/80/ff, a five-byte maximal varint inserted, a slice duplicated or dropped, trailing bytes, empty, a few random bytes - pushed through the gossip validator + handler of postBlock / postSingleCommits / postTransactionsAnnouncement or the RPC handler of getLastBlock / getHighestCommonBlock / getBlocksFromId / getTransactions; and crafted messages that pass the cheap checks: a correctly signed successor block whose aggregate commit has 1-3 arbitrary bitmap bytes and a 96-byte (or shorter) non-signature, a single commit by a real validator for a real block whose signature is all-ff / all-zero / the point at infinity / random; (2) sync responses of honest peers truncated or bit-flipped at a drawn position; (3) the single-rule block mutants of C03. Oracle: the simulator's process model - a panic inside any node step (the process would die) or a step that issues more than 3000 requests (the consensus loop never returns) is a violation with the step's input as witness; a run exceeding 300 s wall is reported as infrastructure failure, not as a verdict",
+        "real": ["pkg/consensus (block / single-commit gossip validators and handlers, process, verifyBlock, verifyAggregateCommit)", "pkg/consensus/sync (RPC handlers, request decoding, downloader, both sync loops on corrupted responses)", "pkg/txpool (transaction gossip validator/handler, getTransactions handler)", "pkg/blockchain + pkg/codec decoders (block, transaction, events)", "pkg/consensus/certificate, pkg/crypto (BLS verification on garbage, aggregation bits)", "framework ABI handler + statemachine (VerifyTransaction on decoded garbage)"],
+        "stub": ["pkg/p2p envelope decoding, message validator and rate limiting (stubbed here; the real ones face malformed envelopes in the C18 check)", "libp2p", "pkg/rpc HTTP/WS server (not executed: RPC clients are not simulated)", "application module: simmod", "clock"],
+        "distinct_measure": "FNV-64 of (drawn configuration, final tips / BFT heights / finalized heights of all nodes)",
+        "assumptions": ["inputs are corruptions of what simulated runs produce plus a few crafted shapes; exhaustive enumeration of all short byte strings is outside the technique (DESIGN 5)", "SMT/RMT proof verifiers are exercised by the C10/C11 harnesses, whose panic verdicts are labelled C09 there", "time and memory bounds are only checked through the request-loop guard and the wall-clock watchdog"],
+    },
 }
